@@ -87,8 +87,7 @@ pub fn worker_main() -> i32 {
         if inp.read_exact(&mut buf).is_err() {
             return 0;
         }
-        let mut o = Opts::o(opt.min(3));
-        o.filename = "main.c".into();
+        let o = opts_of(opt);
         let r = cc::compile_bytes(&buf, &o);
         let line = match r {
             Outcome::Ok(_) => "ok".to_string(),
@@ -105,6 +104,15 @@ pub fn worker_main() -> i32 {
         let _ = writeln!(so, "\u{1}ANSWER\t{}", line);
         let _ = so.flush();
     }
+}
+
+/// option byte of a case: bits 0-1 optimisation level, bit 2 --insert-code, bit 3 --fsigned_char
+pub fn opts_of(opt: u8) -> Opts {
+    let mut o = Opts::o(opt & 3);
+    o.insert_code = opt & 4 != 0;
+    o.signed_chars = opt & 8 != 0;
+    o.filename = "main.c".into();
+    o
 }
 
 pub struct Worker {
@@ -317,7 +325,37 @@ fn join(toks: &[crate::checks::c11::Tok]) -> String {
     s
 }
 
+/// the generator configurations of the other checks: whatever they feed the compiler (and would
+/// only count as "panic routed to C16") is fed here too, unmutated
+fn family_cfg(g: &mut G) -> (GenCfg, &'static str) {
+    let k = g.below(16);
+    match g.below(10) {
+        0 => (super::c01::cfg(), "C01"),
+        1 => (super::c02::cfg(), "C02"),
+        2 => (super::c03::cfg(), "C03"),
+        3 => (super::c04::cfg(k), "C04"),
+        4 => (super::c12::cfg(), "C12"),
+        5 => (super::c13::cfg(k), "C13"),
+        6 => (super::c14::cfg(), "C14"),
+        7 => (super::c15::cfg(), "C15"),
+        8 => (super::c17::cfg(k), "C17"),
+        _ => (super::c18::cfg(), "C18"),
+    }
+}
+
 pub fn gen_case(g: &mut G, corpus: &[String], cfg: &GenCfg) -> Case {
+    if g.chance(1, 4) {
+        let (fcfg, name) = family_cfg(g);
+        let c = sem::gen_case(g, &fcfg, 0, &[0, 1, 2, 3], true);
+        let mut opt = c.opt & 3;
+        if c.signed_chars {
+            opt |= 8;
+        }
+        if g.chance(1, 4) {
+            opt |= 4;
+        }
+        return Case { text: c.source(), opt, mutations: vec![format!("unmutated program of the {} generator", name)] };
+    }
     let base = if !corpus.is_empty() && g.chance(1, 3) {
         corpus[g.below(corpus.len())].clone()
     } else {
@@ -375,14 +413,14 @@ pub fn gen_case(g: &mut G, corpus: &[String], cfg: &GenCfg) -> Case {
                 toks[i].text = format!("\n{}\n", v);
             }
             _ => {
-                let v = *g.pick(&["nosuch", "main", "f0()", "proto_only(1)", "(void)0", "f0", "uc1[3]", "*uc1", "&uc1"]);
+                let v = *g.pick(&["nosuch", "main", "f0()", "proto_only(1)", "proto_only", "(void)0", "f0", "uc1[3]", "*uc1", "&uc1", "X", "Y"]);
                 muts.push(format!("name `{}` at `{}`", v, toks[i].text));
                 toks[i].text = v.to_string();
             }
         }
     }
     let mut text = join(&toks);
-    match g.below(30) {
+    match g.below(24) {
         0 => {
             text.clear();
             muts.push("empty file".into());
@@ -407,7 +445,14 @@ pub fn gen_case(g: &mut G, corpus: &[String], cfg: &GenCfg) -> Case {
         }
         _ => {}
     }
-    Case { text, opt: g.below(2) as u8, mutations: muts }
+    let mut opt = g.below(4) as u8;
+    if g.chance(1, 3) {
+        opt |= 4;
+    }
+    if g.chance(1, 6) {
+        opt |= 8;
+    }
+    Case { text, opt, mutations: muts }
 }
 
 fn include_escapes(text: &str) -> bool {
@@ -479,7 +524,7 @@ pub fn check(case: &Case, st: &mut Stats, known: &Known) -> Result<(), String> {
     }
     if !case.mutations.is_empty() {
         st.nontrivial(pbt::hash_str(&case.text));
-        st.sample(3, || json!({"mutations": case.mutations, "text": case.text.chars().take(600).collect::<String>()}));
+        st.sample(3, || json!({"mutations": case.mutations, "options": opts_of(case.opt).describe(), "text": case.text.chars().take(600).collect::<String>()}));
     }
     Ok(())
 }
